@@ -38,6 +38,9 @@ func init() {
 				case "modules", "lifecycle":
 					w = 3
 				}
+				if len(fams) <= 2 {
+					w = 14 / len(fams) // a property with one or two families gets all the cores
+				}
 				jobs = append(jobs, s1job(f.name, d, tags, w, budget))
 			}
 			if extra != nil {
@@ -47,9 +50,9 @@ func init() {
 		}
 	}
 	info := check.PropInfo{Rule: s1Rule, Assumptions: s1Assumptions}
-	check.RegisterProp("C01", plan([]string{"C01"}, []fam{{"entities", 7, 8}, {"components", 5, 6}, {"modules", 4, 5}}, nil), info)
-	check.RegisterProp("C02", plan([]string{"C02"}, []fam{{"entities", 7, 8}, {"components", 5, 6}, {"modules", 4, 5}}, nil), info)
-	check.RegisterProp("C04", plan([]string{"C04"}, []fam{{"entities", 7, 8}, {"components-ids", 3, 4}, {"modules", 4, 5}, {"lifecycle", 6, 8}, {"groundplane", 4, 6}}, func(tier string) []check.Job {
+	check.RegisterProp("C01", plan([]string{"C01"}, []fam{{"entities", 7, 8}, {"components", 5, 7}, {"modules", 4, 7}}, nil), info)
+	check.RegisterProp("C02", plan([]string{"C02"}, []fam{{"entities", 7, 8}, {"components", 5, 7}, {"modules", 4, 7}}, nil), info)
+	check.RegisterProp("C04", plan([]string{"C04"}, []fam{{"entities", 7, 8}, {"components-ids", 3, 5}, {"modules", 4, 6}, {"lifecycle", 6, 8}, {"groundplane", 4, 6}}, func(tier string) []check.Job {
 		// the remaining request kinds: receipts (incl. the queue-full answer), signed latency starts,
 		// and two concurrent adds of one component (exactly one success)
 		p1, _ := json.Marshal(c19Params{Cap: 1, Mode: "never", Pairs: true, Fill: true})
@@ -63,9 +66,9 @@ func init() {
 			c19concurrent(1, "200", 1), c19concurrent(1, "never", 1), c19concurrent(2, "200", 1),
 		}
 	}), info)
-	check.RegisterProp("C05", plan([]string{"C05"}, []fam{{"entities", 7, 8}, {"modules", 4, 5}}, nil), info)
-	check.RegisterProp("C06", plan([]string{"C06"}, []fam{{"entities", 7, 8}, {"components", 5, 6}, {"modules", 4, 5}}, nil), info)
-	check.RegisterProp("C12", plan([]string{"C12"}, []fam{{"components", 5, 6}, {"components-ids", 3, 4}}, nil), info)
-	check.RegisterProp("C13", plan([]string{"C13"}, []fam{{"components", 5, 6}}, nil), info)
-	check.RegisterProp("C16", plan([]string{"C16"}, []fam{{"modules", 4, 5}}, nil), info)
+	check.RegisterProp("C05", plan([]string{"C05"}, []fam{{"entities", 7, 8}, {"modules", 4, 7}}, nil), info)
+	check.RegisterProp("C06", plan([]string{"C06"}, []fam{{"entities", 7, 8}, {"components", 5, 7}, {"modules", 4, 7}}, nil), info)
+	check.RegisterProp("C12", plan([]string{"C12"}, []fam{{"components", 5, 8}, {"components-ids", 3, 6}}, nil), info)
+	check.RegisterProp("C13", plan([]string{"C13"}, []fam{{"components", 5, 8}}, nil), info)
+	check.RegisterProp("C16", plan([]string{"C16"}, []fam{{"modules", 4, 10}}, nil), info)
 }
